@@ -3,6 +3,10 @@
    One thread per request; a thread moves from one verifhook yield point of the real code to the next
    ([AResume]); the batch worker is parked inside Store.InsertLogs until [APersistOk] / [APersistFail];
    [ACrash] abandons the commander generation and re-initialises from the persisted log.
+   [ACancel t] cancels the context of request t: the write path consults it in one place only, the wait for
+   the account locks (DefaultLocker.Lock, parked at "lock.enqueued"): [AResumeCancelled t] is the ctx.Done()
+   branch of that select (when the intent has been granted AND the context is done the Go runtime may take
+   either branch: both [AResume t] and [AResumeCancelled t] are enabled).
    The store answers every read from the persisted log (as the SQL projection is specified to, C04).
    Requests are posting-mode transactions over one asset (general scripts reduce to them by C01/C09),
    reverts, and metadata writes. Models the tree WITH the engine repairs. Definitions only. *)
@@ -45,7 +49,8 @@ Record entry := {
 }.
 
 Inductive eclass := EIkBusy | EConflict | ENotFound | EAlreadyReverted | ERevertOccurring | EInsufficient
-                  | ENoPostings | EKindMismatch.
+                  | ENoPostings | EKindMismatch
+                  | ELockCancelled.   (* the request's context was done while it waited for its account locks *)
 Inductive response := ROk (txid : option nat) | RErr (e : eclass) | RCrashed.
 
 Inductive pc :=
@@ -67,7 +72,8 @@ Record thread := {
   t_txid : option nat;
   t_granted : bool;               (* lock granted by a releaser while it was queued *)
   t_resp : option response;
-  t_gen : nat
+  t_gen : nat;
+  t_cancelled : bool              (* the request's context.Context is done (the caller went away / timed out) *)
 }.
 
 Record event := { ev_tid : tid; ev_kind : kind; ev_txid : option nat; ev_reverted : option nat;
@@ -145,7 +151,7 @@ Fixpoint set_thread (l : list (tid * thread)) (t : tid) (th : thread) : list (ti
 
 Definition with_pc (th : thread) (p : pc) : thread :=
   {| t_req := t_req th; t_pc := p; t_postings := t_postings th; t_unb := t_unb th; t_view := t_view th;
-     t_entry := t_entry th; t_txid := t_txid th; t_granted := t_granted th; t_resp := t_resp th; t_gen := t_gen th |}.
+     t_entry := t_entry th; t_txid := t_txid th; t_granted := t_granted th; t_resp := t_resp th; t_gen := t_gen th; t_cancelled := t_cancelled th |}.
 
 Record upd := {  (* the parts of the state a step changes; the rest is copied *)
   u_persisted : list entry; u_last : option (nat * nat); u_lasttx : option nat; u_pending : list entry;
@@ -183,7 +189,7 @@ Fixpoint recheck (queue : list tid) (ths : list (tid * thread)) (locks : list (t
           if compatible rs ws locks then
             let th' := {| t_req := t_req th; t_pc := t_pc th; t_postings := t_postings th; t_unb := t_unb th;
                           t_view := t_view th; t_entry := t_entry th; t_txid := t_txid th; t_granted := true;
-                          t_resp := t_resp th; t_gen := t_gen th |} in
+                          t_resp := t_resp th; t_gen := t_gen th; t_cancelled := t_cancelled th |} in
             recheck rest (set_thread ths w th') (locks ++ [(w, rs, ws)])
           else
             let '(q, ths', locks') := recheck rest ths locks in (w :: q, ths', locks')
@@ -206,7 +212,7 @@ Definition finish (t : tid) (th : thread) (r : response) (publish rel_ik rel_ref
                ev_persisted := length (u_persisted u) |} in
   let th' := {| t_req := rq; t_pc := PFinished; t_postings := t_postings th; t_unb := t_unb th; t_view := t_view th;
                 t_entry := t_entry th; t_txid := t_txid th; t_granted := t_granted th; t_resp := Some r;
-                t_gen := t_gen th |} in
+                t_gen := t_gen th; t_cancelled := t_cancelled th |} in
   {| u_persisted := u_persisted u; u_last := u_last u; u_lasttx := u_lasttx u; u_pending := u_pending u;
      u_batch := u_batch u;
      u_iks := if rel_ik && negb (N.eqb (rq_ik rq) 0) then remove_N (rq_ik rq) (u_iks u) else u_iks u;
@@ -310,7 +316,7 @@ Definition resume (s : state) (t : tid) : option state :=
           else
             let ps := match find_tx (persisted s) (rq_revert rq) with Some e => swap_rev (e_postings e) | None => [] end in
             let th' := {| t_req := rq; t_pc := t_pc th; t_postings := ps; t_unb := rq_unb rq; t_view := t_view th;
-                          t_entry := t_entry th; t_txid := t_txid th; t_granted := false; t_resp := None; t_gen := t_gen th |} in
+                          t_entry := t_entry th; t_txid := t_txid th; t_granted := false; t_resp := None; t_gen := t_gen th; t_cancelled := t_cancelled th |} in
             ok (enter_run t th' u)
       | PIkBusy => ok (finish t th (RErr EIkBusy) false false false true u)
       | PIkTaken => ok (set_th t (with_pc th (PIkLookup (find_by_ik (persisted s) (rq_ik rq)))) u)
@@ -352,7 +358,7 @@ Definition resume (s : state) (t : tid) : option state :=
           let th' := {| t_req := rq; t_pc := PBalances; t_postings := t_postings th; t_unb := t_unb th;
                         t_view := map (fun a => (a, balance_of (persisted s) a)) accs;
                         t_entry := t_entry th; t_txid := t_txid th; t_granted := t_granted th; t_resp := None;
-                        t_gen := t_gen th |} in
+                        t_gen := t_gen th; t_cancelled := t_cancelled th |} in
           ok (set_th t th' u)
       | PBalances =>
           ok (set_th t (with_pc th (PRan (covers (t_view th) (t_unb th) (t_postings th)))) u)
@@ -364,7 +370,7 @@ Definition resume (s : state) (t : tid) : option state :=
               if rq_dry rq then
                 let th' := {| t_req := rq; t_pc := PTxid; t_postings := t_postings th; t_unb := t_unb th; t_view := t_view th;
                               t_entry := t_entry th; t_txid := Some (next_nat (v_lasttx s)); t_granted := t_granted th;
-                              t_resp := None; t_gen := t_gen th |} in
+                              t_resp := None; t_gen := t_gen th; t_cancelled := t_cancelled th |} in
                 ok (set_th t th' u)
               else ok (set_th t (with_pc th PAppendEnter) u)
           end
@@ -376,7 +382,7 @@ Definition resume (s : state) (t : tid) : option state :=
                 let id := next_nat (v_lasttx s) in
                 let th' := {| t_req := rq; t_pc := PTxid; t_postings := t_postings th; t_unb := t_unb th; t_view := t_view th;
                               t_entry := t_entry th; t_txid := Some id; t_granted := t_granted th; t_resp := None;
-                              t_gen := t_gen th |} in
+                              t_gen := t_gen th; t_cancelled := t_cancelled th |} in
                 let u1 := set_th t th' u in
                 ok {| u_persisted := u_persisted u1; u_last := u_last u1; u_lasttx := Some id; u_pending := u_pending u1;
                       u_batch := u_batch u1; u_iks := u_iks u1; u_refs := u_refs u1; u_revs := u_revs u1;
@@ -386,7 +392,7 @@ Definition resume (s : state) (t : tid) : option state :=
                 (* metadata writes have no "txid" yield point: the next one is "chained" *)
                 let e := build_entry t th u in
                 let th' := {| t_req := rq; t_pc := PChained; t_postings := t_postings th; t_unb := t_unb th; t_view := t_view th;
-                              t_entry := Some e; t_txid := None; t_granted := t_granted th; t_resp := None; t_gen := t_gen th |} in
+                              t_entry := Some e; t_txid := None; t_granted := t_granted th; t_resp := None; t_gen := t_gen th; t_cancelled := t_cancelled th |} in
                 let u1 := set_th t th' u in
                 ok {| u_persisted := u_persisted u1; u_last := Some (e_id e, e_uid e); u_lasttx := u_lasttx u1;
                       u_pending := u_pending u1; u_batch := u_batch u1; u_iks := u_iks u1; u_refs := u_refs u1;
@@ -398,7 +404,7 @@ Definition resume (s : state) (t : tid) : option state :=
           else
             let e := build_entry t th u in
             let th' := {| t_req := rq; t_pc := PChained; t_postings := t_postings th; t_unb := t_unb th; t_view := t_view th;
-                          t_entry := Some e; t_txid := t_txid th; t_granted := t_granted th; t_resp := None; t_gen := t_gen th |} in
+                          t_entry := Some e; t_txid := t_txid th; t_granted := t_granted th; t_resp := None; t_gen := t_gen th; t_cancelled := t_cancelled th |} in
             let u1 := set_th t th' u in
             ok {| u_persisted := u_persisted u1; u_last := Some (e_id e, e_uid e); u_lasttx := u_lasttx u1;
                   u_pending := u_pending u1; u_batch := u_batch u1; u_iks := u_iks u1; u_refs := u_refs u1;
@@ -446,12 +452,59 @@ Definition resume (s : state) (t : tid) : option state :=
       end
   end.
 
+(* ---- cancellation of a request's context ---------------------------------------------------------------- *)
+Definition pc_finished (p : pc) : bool := match p with PFinished => true | _ => false end.
+
+Definition with_cancelled (th : thread) : thread :=
+  {| t_req := t_req th; t_pc := t_pc th; t_postings := t_postings th; t_unb := t_unb th; t_view := t_view th;
+     t_entry := t_entry th; t_txid := t_txid th; t_granted := t_granted th; t_resp := t_resp th; t_gen := t_gen th;
+     t_cancelled := true |}.
+
+(* the caller cancels the context of a running request: by itself this changes nothing but the flag *)
+Definition cancel (s : state) (t : tid) : option state :=
+  match get_thread (threads s) t with
+  | None => None
+  | Some th =>
+      if negb (Nat.eqb (t_gen th) (gen s)) then None else
+      if pc_finished (t_pc th) then None else
+      Some (to_state (gen s) (set_th t (with_cancelled th) (of_state s)))
+  end.
+
+(* lock.go, intents.RemoveValue(intent): a waiter that was not granted leaves the queue; no recheck *)
+Definition dequeue (t : tid) (u : upd) : upd :=
+  {| u_persisted := u_persisted u; u_last := u_last u; u_lasttx := u_lasttx u; u_pending := u_pending u;
+     u_batch := u_batch u; u_iks := u_iks u; u_refs := u_refs u; u_revs := u_revs u; u_locks := u_locks u;
+     u_queue := remove_nat t (u_queue u); u_cs := u_cs u; u_uid := u_uid u; u_threads := u_threads u;
+     u_published := u_published u |}.
+
+(* DefaultLocker.Lock, the ctx.Done() branch of the select a queued intent waits in: under the locker mutex the
+   intent either finds itself granted meanwhile (it gives the accounts back and re-checks the queue, exactly as a
+   release does) or removes itself from the queue; Lock returns the context error, exec wraps it, run returns it:
+   its deferred functions release the idempotency key, then the completions registered so far (the reference; the
+   account unlock is not registered yet), then RevertTransaction's deferred release of the revert reservation.
+   No yield point parks in between: one step. Nothing was built, nothing is written, nothing is published. *)
+Definition resume_cancelled (s : state) (t : tid) : option state :=
+  match get_thread (threads s) t with
+  | None => None
+  | Some th =>
+      if negb (Nat.eqb (t_gen th) (gen s)) then None else
+      match t_pc th with
+      | PEnqueued =>
+          if t_cancelled th then
+            let u := of_state s in
+            let u1 := if t_granted th then unlock t u else dequeue t u in
+            Some (to_state (gen s) (finish t th (RErr ELockCancelled) false true true true u1))
+          else None
+      | _ => None
+      end
+  end.
+
 Definition start (s : state) (t : tid) (rq : request) : option state :=
   match get_thread (threads s) t with
   | Some _ => None
   | None =>
       let th := {| t_req := rq; t_pc := PStart; t_postings := rq_postings rq; t_unb := rq_unb rq; t_view := [];
-                   t_entry := None; t_txid := None; t_granted := false; t_resp := None; t_gen := gen s |} in
+                   t_entry := None; t_txid := None; t_granted := false; t_resp := None; t_gen := gen s; t_cancelled := false |} in
       let u := of_state s in
       match rq_kind rq with
       | KRevert =>
@@ -490,11 +543,12 @@ Definition crash (s : state) : state :=
                    | PFinished => snd p
                    | _ => {| t_req := t_req (snd p); t_pc := PFinished; t_postings := t_postings (snd p); t_unb := t_unb (snd p);
                              t_view := t_view (snd p); t_entry := t_entry (snd p); t_txid := t_txid (snd p);
-                             t_granted := t_granted (snd p); t_resp := Some RCrashed; t_gen := t_gen (snd p) |}
+                             t_granted := t_granted (snd p); t_resp := Some RCrashed; t_gen := t_gen (snd p); t_cancelled := t_cancelled (snd p) |}
                    end)) (threads s);
      published := published s |}.
 
-Inductive action := AStart (t : tid) (rq : request) | AResume (t : tid) | APersistOk | APersistFail | ACrash.
+Inductive action := AStart (t : tid) (rq : request) | AResume (t : tid) | APersistOk | APersistFail | ACrash
+                  | ACancel (t : tid) | AResumeCancelled (t : tid).
 
 Definition step (s : state) (a : action) : option state :=
   match a with
@@ -503,6 +557,8 @@ Definition step (s : state) (a : action) : option state :=
   | APersistOk => persist_ok s
   | APersistFail => match v_batch s with Some _ => Some (crash s) | None => None end
   | ACrash => Some (crash s)
+  | ACancel t => cancel s t
+  | AResumeCancelled t => resume_cancelled s t
   end.
 
 Fixpoint run (s : state) (acts : list action) : option state :=
